@@ -110,6 +110,14 @@ Inductive case :=
           (observed : res (list Z * list zmat * list zmat)) (dense_out dense_init : tensor Z)
 (* parafac2(init=..., nn_modes=nn, n_iter_max=0): the start state behind the nn_modes gate.  builtin = false: a user-supplied
    decomposition; builtin = true: init="random" with initialize_decomposition replaced by a recorded integer answer `init` *)
+(* the same with the request list as the caller wrote it (integers: negative / out-of-range entries) *)
+| CTraceZ (id : nat) (a : algo) (n : nat) (fixedz : list Z) (budget : nat) (tol : bool) (stops : list bool)
+          (observed : res (list (list nat))) (excusable : list (list nat))
+(* parafac2(init='random' | 'svd', nn_modes=nn, n_iter_max=0) with the REAL initialiser: `init` is the recorded answer of
+   initialize_decomposition, (proj_args, proj_ans) the recorded last call of _compute_projections (LAPACK answer tape, returned iff the
+   model hands over the factors the implementation handed over); numbers are the floats scaled by a common power of two (exact) *)
+| CP2StartK (id : nat) (rank : nat) (kind : p2kind) (nn : option (list nat)) (init : p2init Z) (proj_args proj_ans : list zmat)
+            (observed : res (list Z * list zmat * list zmat))
 | CP2Start (id : nat) (rank : nat) (builtin : bool) (nn : option (list nat)) (init : p2init Z) (Q Rm : zmat)
            (observed : res (list Z * list zmat * list zmat)).
 
@@ -142,6 +150,14 @@ Definition agree (c : case) : bool :=
       | Ok x => zt_eqb (p2_state_dense J x) dense_out && zt_eqb dense_out dense_init
       | Err => true
       end
+  | CTraceZ _ a n fixedz budget tol stops observed excusable =>
+      trace_res_ok excusable
+        (match request a n fixedz with Ok fixed => trace_run a n fixed budget tol stops None [] | Err => Err end) observed
+  | CP2StartK _ rank kind nn init proj_args proj_ans observed =>
+      res_eqb p2_state_eqb
+        (match p2_start_kind 1%Z (fun B => (B, B)) rank (map (map (Z.max 0))) (fun fs => if zmats_eqb fs proj_args then proj_ans else [])
+                             kind nn init with
+         | Ok s => Ok (p2w s, p2f s, p2P s) | Err => Err end) observed
   | CP2Start _ rank builtin nn init Q Rm observed =>
       res_eqb p2_state_eqb
         (match p2_start 1%Z (fun _ => (Q, Rm)) rank (map (map (Z.max 0))) builtin nn init with
@@ -152,6 +168,6 @@ Definition ident (c : case) : nat :=
   match c with
   | CInit i _ _ _ _ _ | CDense i _ _ _ _ | CTrace i _ _ _ _ _ _ _ _ _ _ | CTuckerTape i _ _ _ _ _ _ _ _ _ | CTuckerLists i _ _ _
   | CTuckerZero i _ _ _ _ | CTuckerDense i _ _ _ | CP2Dense i _ _ _ _ _ _ _ _ | CNtdInit i _ _ _ _
-  | CP2Init i _ _ _ _ _ _ _ _ | CHalsInit i _ _ _ _ _ _ _ | CP2Start i _ _ _ _ _ _ _ => i
+  | CP2Init i _ _ _ _ _ _ _ _ | CHalsInit i _ _ _ _ _ _ _ | CP2Start i _ _ _ _ _ _ _ | CTraceZ i _ _ _ _ _ _ _ _ | CP2StartK i _ _ _ _ _ _ _ => i
   end.
 Definition failing := failing_ids agree ident.
